@@ -585,7 +585,7 @@ func NearestIdxForSpan(n int, l, u float64, v float64) int {
 
 	// Can't guarantee anything about exactly halfway between
 	// because of floating point weirdness.
-	return int((float64(n)-1)/(u-l)*(v-l) + 0.5)
+	return int((v-l)/(u-l)*(float64(n)-1) + 0.5)
 }
 
 // Norm returns the L norm of the slice S, defined as
